@@ -216,7 +216,7 @@ func newH(seed int64, hid string, out *bufio.Writer, ntargets int, persistent ma
 		crash: &crashCtl{budget: -1}, r: rand.New(rand.NewSource(seed)), out: out, hid: hid, knownC: map[string]bool{}, lastVerdict: -1,
 		raw: map[configapi.ConfigurationID]_map.Map[string, *configapi.PathValue]{}}
 	h.plugin = &fakes.PluginClient{Name: ttype, Version: tversion}
-	for _, p := range []string{"/a/b", "/a/bc", "/a/c", "/a/d/e", "/z", "/l[k=*]/v", "/l[k=*]/k", "/l[k=*]/w"} {
+	for _, p := range []string{"/a/b", "/a/bc", "/a/c", "/a/d/e", "/z", "/q", "/l[k=*]/v", "/l[k=*]/k", "/l[k=*]/w"} {
 		h.plugin.RW = append(h.plugin.RW, fakes.RWPath(p, configapi.ValueType_STRING, strings.HasSuffix(p, "]/k"), p[strings.LastIndex(p, "/")+1:]))
 	}
 	h.plugin.Verdict = func(doc []byte) (bool, string) {
@@ -864,7 +864,11 @@ func (h *H) foreignRel(t string) {
 	h.emit(fmt.Sprintf("(foreignrel %d %s)", 1000+h.connSeq, tnum(t)), "")
 }
 
+// devRestart: the device comes back empty; its connections die with it (a restart is only ever noticed that way)
 func (h *H) devRestart(t string) {
+	for _, c := range h.connsOf(t) {
+		h.connDown(c)
+	}
 	h.devs[t].Restart()
 	h.emit(fmt.Sprintf("(devrestart %s)", tnum(t)), "")
 }
@@ -933,7 +937,17 @@ func (h *H) genOps(maxTargets int, bad bool) []op {
 		ops = append(ops, op{target: h.targets[0], path: "/z", val: "v0"})
 	}
 	if !badDone {
-		ops[len(ops)-1] = op{target: ops[len(ops)-1].target, path: "/a/c", val: "BADx"}
+		// replace the last update by a rejected value (never introduces an overlap: same path)
+		for i := len(ops) - 1; i >= 0; i-- {
+			if !ops[i].del {
+				ops[i].val = "BADx"
+				badDone = true
+				break
+			}
+		}
+		if !badDone {
+			ops = append(ops, op{target: "t1", path: "/q", val: "BADx"})
+		}
 	}
 	return ops
 }
@@ -1035,6 +1049,29 @@ func (h *H) finish(quiescent bool) {
 	fmt.Fprintf(h.out, "p2.end\t%s\t%d\t(nb %s)\t%s\t%d\t%d\n", h.hid, q, b.String(), strings.Join(gets, ";"), h.steps, h.noops)
 }
 
+// emitChunks prints the chunking of every validation stream of this history (property C05):
+// p2.chunks <hid> <streams separated by ';', chunk sizes separated by ',', '-' = a stream without chunk; "none" = no stream> <sha of each concatenation>
+func (h *H) emitChunks() {
+	sizes, shas := h.plugin.ChunkStreams()
+	if len(sizes) == 0 {
+		fmt.Fprintf(h.out, "p2.chunks\t%s\tnone\tnone\n", h.hid)
+		return
+	}
+	ss := make([]string, len(sizes))
+	for i, st := range sizes {
+		if len(st) == 0 {
+			ss[i] = "-"
+			continue
+		}
+		cs := make([]string, len(st))
+		for j, c := range st {
+			cs[j] = fmt.Sprintf("%d", c)
+		}
+		ss[i] = strings.Join(cs, ",")
+	}
+	fmt.Fprintf(h.out, "p2.chunks\t%s\t%s\t%s\n", h.hid, strings.Join(ss, ";"), strings.Join(shas, ";"))
+}
+
 func runHistory(seed int64, n int, out *bufio.Writer, kind string) {
 	r0 := rand.New(rand.NewSource(seed*1000003 + int64(n)))
 	nt := 1 + r0.Intn(3)
@@ -1059,6 +1096,25 @@ func runHistory(seed int64, n int, out *bufio.Writer, kind string) {
 	}
 	h.randomSteps(r.Intn(6), 0)
 	nev := 2 + r.Intn(5)
+	if kind == "atomic" && n%97 == 3 {
+		// one Set whose value is larger than the plugin's chunk size (100 kB): the validation document is streamed in
+		// several chunks; lengths around the boundaries 100000 / 200000 and in between (property C05, p2.chunks)
+		var ln int // the document is ln + 10 bytes long
+		switch r.Intn(3) {
+		case 0:
+			ln = 99988 + r.Intn(5)
+		case 1:
+			ln = 199988 + r.Intn(5)
+		default:
+			ln = 100000 + r.Intn(100000)
+		}
+		h.nbSet([]op{{target: h.targets[0], path: "/z", val: "v" + strings.Repeat("x", ln)}}, true, false)
+		h.randomSteps(16, 0)
+		// a second, small Set on the same target: its candidate document contains the large value, so it is always multi-chunk
+		h.nbSet([]op{{target: h.targets[0], path: "/q", val: fmt.Sprintf("v%d", r.Intn(1000))}}, true, false)
+		h.randomSteps(16, 0)
+		nev = 0
+	}
 	for ev := 0; ev < nev; ev++ {
 		switch k := r.Intn(20); {
 		case k < 9:
@@ -1116,6 +1172,7 @@ func runHistory(seed int64, n int, out *bufio.Writer, kind string) {
 	}
 	q := h.settle(80)
 	h.finish(q)
+	h.emitChunks()
 	for _, c := range h.e.Conns.IDs() {
 		h.e.Conns.RemoveConn(c[0])
 	}
